@@ -1,6 +1,21 @@
 """Per-property manifest entries. Only properties with a working check appear in CHECKS."""
 
 CHECKS = {
+    "C16": {
+        "level": "exploration",
+        "technique": "harness-owned deterministic thread scheduler: exhaustive DFS over coarse scheduling points + hypothesis-drawn line-level preemption schedules",
+        "text": ("Worker threads run one at a time under vf.gen.sched (baton hand-over at scheduling points; the lookup mutex is replaced "
+                 "by a cooperative lock that reports blocking, so deadlock is detected). For five lookup scenarios (first load of one "
+                 "URI, different URIs, modification + get_template racing get_template on a simulated whole-second clock, failing "
+                 "compile, bounded lookup) x 2-3 threads x variants, ALL interleavings at lock acquire/release, os.stat/isfile and "
+                 "Template construction are enumerated by DFS re-execution; at line granularity inside mako/lookup.py and mako/util.py "
+                 "(and mako/runtime.py + the generated module for concurrent renders of generated templates with distinct contexts) "
+                 "hypothesis-drawn preemption schedules are run. Per call: complete template, version between call start and return, "
+                 "documented exceptions only, single construction and shared object for simultaneous first requests, renders equal "
+                 "solo output, bound held at quiescence, mutex released, lookup usable afterwards."),
+        "note": ("Preemption only between Python lines of mako code, not inside C calls or between bytecodes; op lists are short; DFS is "
+                 "bounded per scenario instance (evidence notes say complete/truncated). A search over schedules, not a proof."),
+    },
     "C08": {
         "level": "exploration",
         "technique": "differential across construction/rendering paths and PYTHONHASHSEED child processes",
